@@ -17,6 +17,8 @@ MSG_SPECIAL = ["é", "ü", "ñ", "日本", "😀", "→", "'", "\\\"", "\\\\", "
 
 
 def rand_message(rnd):
+    if rnd.random() < 0.08:
+        return ""            # a declared message that happens to be empty is still the declared message
     parts = []
     for _ in range(rnd.randint(1, 6)):
         parts.append(rnd.choice(MSG_WORDS) if rnd.random() < 0.6 else rnd.choice(MSG_SPECIAL))
